@@ -376,6 +376,22 @@ func (e *Enc) loopModifies(li *loopInfo) (ws writeSets, all bool) {
 						ws.get(n, srt)
 					}
 				}
+			case *ssa.Select:
+				if e.fc != nil {
+					for _, h := range e.fc.Hooks {
+						if strings.HasPrefix(h.Callee, "select:arm") {
+							for _, st := range h.Stmts {
+								if st.Kind == "assign" {
+									if g, ok := e.prog.cs.Ghosts[st.Target]; ok {
+										if srt, err := ghostSort(g.Type); err == nil {
+											ws.whole("G$"+st.Target, srt)
+										}
+									}
+								}
+							}
+						}
+					}
+				}
 			case *ssa.MakeClosure:
 				if e.fc != nil {
 					for _, h := range e.fc.Hooks {
@@ -851,6 +867,8 @@ func (e *Enc) execInstr(ins ssa.Instruction) error {
 	case *ssa.MakeChan:
 		ref := e.allocRef(x.Type())
 		e.define(x, ref)
+		cl := e.lookup(e.cur, "G$closedchans", ArraySort(SInt, SBool))
+		e.set(e.cur, "G$closedchans", Store(cl, e.vals[x], TFalse))
 		return nil
 	case *ssa.Send:
 		e.abstracted["channel send"] = true
